@@ -5,17 +5,10 @@ from . import io_rules as io
 from . import io_rules2 as io2
 from . import loader_rules as lr
 
-EXPLANATION = (
-    "Static rules: (R1) the level cap is live: key-domain propagation — _select is keyed by reader kind ({mesh, part, sink} "
-    "from the kind literals of the reader constructors), so every literal used to test or subscript it must be a kind; the "
-    "call of find_max_amr_level is reachable and guarded only by the presence of a level predicate; (R2) its result is "
-    "stored in meta['lmax'], which bounds the level loop and is the lmax of the leaf rule (truth table: cells at the deepest "
-    "loaded level are leaves whatever their son index says); (R3) find_max_amr_level is folded over level predicates "
-    "(l<=k, l<k, a<=l<b, l==k, l>=a) on a list model of numpy and must return the highest accepted level; "
-    "hilbert pre-selection receives both lmax and levelmax.")
-NOT_DECIDED = "that the returned cells tile the domain exactly once (follows from the leaf rule and the tree being a tree; argued)"
-TRUSTED = ("CPython ast", "list model of np.arange/argwhere/ravel/max")
-TECHNIQUE = "static analysis: key-domain (dead guard) propagation, def-use of the level cap, finite-case folding"
+EXPLANATION = '(R1) Loader.load fold: the level cap is computed from the mesh predicates before the readers are initialised, bounds the level loop, is absent without a level predicate and rebuilt on every load; (R2) leaf flag over {son} x {below / at the cap}; (R3) find_max_amr_level on a list model of the levels 1..6 over 7 predicate shapes (bands, single level, lower bound): the highest accepted level; hilbert_cpu_list hands lmax and levelmax on; (R4) a level-limited reload starts from empty per-variable pieces (descriptor_to_variables history; two-load history of the loader).'
+NOT_DECIDED = "predicates that are not monotone in a way the 7 shapes do not represent; levelmax above the model's 6"
+TRUSTED = ('CPython ast', 'the interpreter sa/models.py (ModelEval) and its library models')
+TECHNIQUE = 'static analysis: finite-scenario folding of the loader and of the level-cap helper on a list model'
 
 from . import loader_folds as lfold
 from . import io_folds as iof
